@@ -76,6 +76,8 @@ pub enum Al {
     ASlot0,
     TargetSlot0,
     EmptyAndXret,
+    /// the executing contract is the block's coinbase and the access list names two of its slots
+    CoinbaseIsASlots,
 }
 pub fn build_case(spec: SpecId, al: Al, with_auth: bool, code: &[u8]) -> TxCase {
     let mut w = std_world();
@@ -95,6 +97,10 @@ pub fn build_case(spec: SpecId, al: Al, with_auth: bool, code: &[u8]) -> TxCase 
         Al::ASlot0 => vec![(A, vec![U256::ZERO])],
         Al::TargetSlot0 => vec![(t, vec![U256::ZERO])],
         Al::EmptyAndXret => vec![(EMPTY, vec![U256::from(3)]), (XRET, vec![U256::ZERO]), (XREV, vec![])],
+        Al::CoinbaseIsASlots => {
+            c.block.coinbase = A;
+            vec![(A, vec![U256::ZERO, U256::from(1)]), (revm::precompile::u64_to_address(4), vec![U256::ZERO])]
+        }
     };
     if with_auth {
         c.tx.auth_list = Some(vec![AuthSpec { chain_id: 1, address: BOK, nonce: 0, authority: Some(AUTH) }]);
@@ -318,7 +324,7 @@ pub fn run(ctx: &Ctx) -> i32 {
     }
     let rot = (ctx.seed as usize) % jobs.len().max(1);
     jobs.rotate_left(rot);
-    let als = [Al::None, Al::Bok, Al::ASlot0, Al::TargetSlot0, Al::EmptyAndXret];
+    let als = [Al::None, Al::Bok, Al::ASlot0, Al::TargetSlot0, Al::EmptyAndXret, Al::CoinbaseIsASlots];
     let accs: Vec<Acc> = jobs
         .par_chunks(32)
         .map(|ch| {
@@ -361,12 +367,12 @@ pub fn run(ctx: &Ctx) -> i32 {
         .collect();
     let acc = merge_all(accs);
     let meta = Meta {
-        rule: format!("every macro program of depth <= {depth} over a 32-macro access alphabet (SLOAD/SSTORE of 2 slots, BALANCE/EXTCODE* of 10 addresses incl. coinbase, precompile, authority, delegated account, the devnet history address; 0-gas calls of all four kinds; calls and delegate calls to contracts that access and then return or revert; CREATE2 of reverting / succeeding init code that reads slot 0; SELFDESTRUCT) x 5 access lists x with/without an EIP-7702 authorization on BERLIN, LONDON, SHANGHAI, CANCUN, PRAGUE; distinct = distinct (spec, access list, authorization, cold/warm sequence)"),
+        rule: format!("every macro program of depth <= {depth} over a 32-macro access alphabet (SLOAD/SSTORE of 2 slots, BALANCE/EXTCODE* of 10 addresses incl. coinbase, precompile, authority, delegated account, the devnet history address; 0-gas calls of all four kinds; calls and delegate calls to contracts that access and then return or revert; CREATE2 of reverting / succeeding init code that reads slot 0; SELFDESTRUCT) x 6 access lists (incl. one naming slots of the coinbase, which is the executing contract) x with/without an EIP-7702 authorization on BERLIN, LONDON, SHANGHAI, CANCUN, PRAGUE; distinct = distinct (spec, access list, authorization, cold/warm sequence)"),
         assumptions: vec![
             "cold/warm is read off the gas each access instruction charged (forwarded call gas subtracted using the child frame's gas limit), never from a revm flag".into(),
             "model = EIP-2929/2930/3651/7702 accessed sets, snapshotted at every frame entry and restored when that frame does not end successfully; the created address is accessed by the creating frame".into(),
         ],
-        bounds: json!({"depth": depth, "access_lists": 5, "specs": 5}),
+        bounds: json!({"depth": depth, "access_lists": 6, "specs": 5}),
         min_distinct: 300,
         exhaustive: true,
         explanation: "explicit access-set model vs gas charged per access".into(),
